@@ -123,7 +123,9 @@ func svcCase(in *CasesIn, c RouteCase, rnd *rand.Rand) RouteObs {
 		u := rnd.Intn(4)
 		sv.src["sync"].setFloat(u, 4, true)
 		sv.src["async"].setFloat(u, 4, true)
-		svc.Request(mkReq(fmt.Sprintf("c%d", c.ID), k, 1), modeNum(c.H))
+		if _, pan := safeRequest(svc, mkReq(fmt.Sprintf("c%d", c.ID), k, 1), modeNum(c.H)); pan != "" {
+			obs.Note = "Request panicked: " + pan
+		}
 		for key, wk := range w.Workers {
 			select {
 			case e := <-wk.Events:
